@@ -82,6 +82,43 @@ def journal_run(sc, name, lines):
     return ev, data
 
 
+def decode_catalogues(blobs):
+    r = subprocess.run([BIN, "decode", "catalogue"], input="".join(b.hex() + "\n" for b in blobs), stdout=subprocess.PIPE,
+                       stderr=subprocess.DEVNULL, text=True, timeout=120)
+    out = [json.loads(x) for x in r.stdout.splitlines() if x.strip()]
+    if len(out) != len(blobs):
+        raise ToolError("catalogue decoder answered %d of %d records" % (len(out), len(blobs)))
+    return out
+
+
+def order_leg(c, sc, name, order):
+    """trace validation of one journal against CrashOrder.tla; a rejected journal that is accepted once a Defect_* constant
+    is switched on shows a write order that TLC proves unsafe"""
+    tp = vlib.write_ndjson(os.path.join(sc, "order_%s.ndjson" % name), order)
+    tv = vlib.tlc_tv("Trace_CrashOrder.tla", "Trace_CrashOrder.cfg", tp, name="c04_order", timeout=600)
+    c.cov["states"] += tv["states"]
+    c.cov["journal_mutations_validated"] = c.cov.get("journal_mutations_validated", 0) + tv["lines"]
+    if tv["accepted"]:
+        return
+    ln = tv.get("rejected_line") or {}
+    if tv.get("invariant_violated"):
+        c.violation("C04:write_order:%s" % tv["invariant_violated"],
+                    "journal of history %s reaches a disk state that is not %s (CrashOrder.tla)" % (name, tv["invariant_violated"]),
+                    {"history": name, "journal_tail": order[-12:]})
+        return
+    for d in ("CatTruncateFirst",):
+        tvd = vlib.tlc_tv("Trace_CrashOrder.tla", "Trace_CrashOrder_defect_%s.cfg" % d, tp, name="c04_order_d", timeout=600)
+        if tvd["accepted"]:
+            c.violation("C04:write_order:%s@%s" % (d, ln.get("ev")),
+                        "the file mutations of history %s are only explained by CrashOrder.tla with Defect_%s, for which TLC shows "
+                        "that a crash leaves an unrecoverable store: journal line %d %s" % (name, d, tv["rejected_at"], json.dumps(ln)),
+                        {"history": name, "line": tv["rejected_at"], "event": ln, "context": tv.get("context", [])})
+            return
+    c.cov["model_drift"].append({"history": name, "line": tv["rejected_at"], "event": ln, "context": tv.get("context", [])[-4:]})
+    vlib.log("C04: journal of %s has a mutation the order model does not know (line %d %s): recorded as model drift" %
+             (name, tv["rejected_at"], json.dumps(ln)[:200]))
+
+
 def probe(imgdir):
     """open a crash image with the real start-up code; -> rec"""
     p = subprocess.Popen([BIN, "node", "run", imgdir, "--settle", "0"], stdin=subprocess.PIPE, stdout=subprocess.PIPE,
@@ -139,6 +176,8 @@ def observations(sc, name, steps, unit, max_images):
         o = dict(obs)
         o["log"] = [dict(e, id=0) if e["id"] in member_ids else e for e in obs["log"]]
         return o
+    # the journal itself against the order discipline of CrashOrder.tla
+    order = crashimg.order_events(ev, decode_catalogues)
     imgs = []
     for k, files, acks, last_ev in crashimg.images(ev):
         n_ack = max(0, len(acks) - 1)
@@ -191,7 +230,7 @@ def observations(sc, name, steps, unit, max_images):
     with ThreadPoolExecutor(max_workers=8) as ex:
         out = list(ex.map(one, range(len(imgs))))
     shutil.rmtree(os.path.join(sc, name), ignore_errors=True)
-    return out, total, len(ev)
+    return out, total, len(ev), order
 
 
 def tlc_chk(obs_file, name):
@@ -212,6 +251,14 @@ def run(tier):
     quick = tier != "thorough"
     vlib.build_harness()
     sc = vlib.scratch("c04")
+    mc = vlib.tlc_mc("CrashOrder.tla", "MC_CrashOrder.cfg" if quick else "MC_CrashOrder_thorough.cfg", name="c04_mc", timeout=3000, workers=12)
+    vlib.require_actions(mc, ["LogOpen", "LogHeader", "LogSetLen", "LogData", "LogUnlink", "SnapCreate", "SnapWrite", "SnapUnlink"])
+    c.add_mc(mc)
+    for d, what in (("CatTruncateFirst", "the catalogue is sized before it is written"),
+                    ("ListBeforeWritten", "a snapshot is listed before its file exists"),
+                    ("UnlinkUncovered", "a log file is unlinked without a covering snapshot")):
+        n = vlib.tlc_mc("CrashOrder.tla", "MC_CrashOrder_defect_%s.cfg" % d, expect_violation="Recoverable", name="c04_neg")
+        c.add_negative_control("CrashOrder where %s violates Recoverable" % what, n["violated"])
     beh = vlib.tlc_sim("CrashStore.tla", "SIM_CrashStore.cfg", num=60 if quick else 600, depth=40, seed=c.seed + 4, name="c04_sim")
     if len(beh) < 20:
         raise ToolError("too few CrashStore histories: %d" % len(beh))
@@ -223,7 +270,8 @@ def run(tier):
     for i, b in enumerate(beh):
         steps = [s for s in b["steps"] if s["op"] != "reopen" and s.get("res") != "index_error"]
         unit = 128 if i % 3 else 65280
-        obs, total, nev = observations(sc, "h%d" % i, steps, unit, 90 if quick else 100000)
+        obs, total, nev, order = observations(sc, "h%d" % i, steps, unit, 90 if quick else 100000)
+        order_leg(c, sc, "h%d" % i, order)
         all_obs.extend(obs)
         images_total += total
         mutations += nev
